@@ -436,7 +436,12 @@ def _run_mfr(case):
             out.fail('mfr-wrong', 0, 'MultiFileReader(%s) raised %r' % (kinds, e), mode=case['mode'], op='init')
             return out
         empty = '' if text else b''
-        for i, op in enumerate(case['ops']):
+        ops = list(case['ops'])
+        if any(w not in (0, None) for w in (case.get('member_pos') or [])) and (not ops or ops[0][0] != 'seek0'):
+            # members that are not at position 0 must be rewound first (the documented way to start over);
+            # enforced here, not only in the generator, so that minimisation cannot drop the seek
+            ops = [['seek0']] + ops
+        for i, op in enumerate(ops):
             steps += 1
             try:
                 if op[0] == 'seek0':
@@ -455,7 +460,7 @@ def _run_mfr(case):
             if got != want:
                 out.fail('mfr-wrong', i,
                          'members %r (%s), after %r: %r returned %r, concatenation gives %r'
-                         % (parts, kinds, case['ops'][:i], op, got, want), mode=case['mode'], op=op[0])
+                         % (parts, kinds, ops[:i], op, got, want), mode=case['mode'], op=op[0])
                 break
             if n is not None:
                 for b in bounds[1:-1]:
